@@ -5,7 +5,7 @@ patch=$1; shift
 name=$(echo "$patch" | md5sum | cut -c1-8)
 wt=/tmp/wt/alt_$name
 git -C /repo worktree remove --force $wt 2>/dev/null; rm -rf $wt
-git -C /repo worktree add -q --detach $wt HEAD || exit 2
+git -C /repo worktree add -q --detach $wt ${BASE:-HEAD} || exit 2
 git -C $wt apply "$patch" || { echo "APPLY FAILED $patch"; git -C /repo worktree remove --force $wt; exit 2; }
 for id in "$@"; do
   echo "=== $patch :: $id"
